@@ -18,6 +18,8 @@ like the original text.
 """
 from __future__ import annotations
 
+import json
+
 import re
 
 
@@ -83,8 +85,10 @@ def _postgresql():
         (7, L, other),
         (8, L, ["+", "-"]), (9, L, ["*", "/", "%"]), (10, L, ["^"]),
     ]
-    # prefix generic operators (~ is bitwise NOT) carry the precedence of "any other operator" (gram.y: qual_Op a_expr %prec Op)
-    return Spec("postgresql", levels, {"-": 13, "+": 13, "~": 7}, not_prec=3, between=6, like=6, in_=6, is_=4, collate=12,
+    # prefix generic operators (~ is bitwise NOT) carry the precedence of "any other operator" (gram.y: qual_Op a_expr %prec Op);
+    # that level is %left, so `~ a & b` reduces the prefix first ((~a) & b): the operand is parsed one level tighter (8), while
+    # `~ a + b` still shifts the tighter `+` (~(a + b))
+    return Spec("postgresql", levels, {"-": 13, "+": 13, "~": 8}, not_prec=3, between=6, like=6, in_=6, is_=4, collate=12,
                 between_lo_min=5, params=("pyformat", "named", "numeric_dollar", "format"), native_boolean=True)
 
 
@@ -631,6 +635,15 @@ _NORM_OP = {"<>": "!=", "==": "=", "^=": "!="}
 ASSOC = {"+", "*", "||", "AND", "OR"}
 
 
+def _norm_cmp(op, l, r):
+    if op in ("=", "!="):
+        if json.dumps(r, sort_keys=True, default=str) < json.dumps(l, sort_keys=True, default=str):
+            l, r = r, l
+    elif op in (">", ">="):
+        op, l, r = {">": "<", ">=": "<="}[op], r, l
+    return ["bin", op, l, r]
+
+
 def canon(a, spec, resolve):
     """normal form modulo redundant parentheses, n-ary flattening of + * || AND OR and the negation
     identities NOT(a<b)=a>=b, NOT(x IS NULL)=x IS NOT NULL, NOT(x [IN|LIKE|BETWEEN] ..)=x NOT .., NOT NOT x = x,
@@ -669,7 +682,10 @@ def canon(a, spec, resolve):
                 else:
                     xs.append(s)
             return ["nary", op, xs]
-        return ["bin", op, l, r]
+        # Python's reflected-operand rule may evaluate "a == b" / "a < b" as b.__eq__(a) / b.__gt__(a) when type(b) is a
+        # subclass of type(a) (e.g. func.coalesce(..) vs a generic func.abs(..)), rendering "b = a" / "b > a": the same
+        # predicate.  Comparisons are therefore normalised: = and != with ordered operands, > and >= mirrored to < and <=.
+        return _norm_cmp(op, l, r)
     if k == "is":
         return ["is", a[1], C(a[2]), a[3]]
     if k == "isdist":
@@ -716,7 +732,7 @@ def negate(c):
         if c[1] == "=" and c[2][0] == "func" and c[2][1] == "DECODE" and c[3][0] == "atom" and c[3][2] in ("0", "1"):
             return ["bin", "=", c[2], ["atom", "num", "1" if c[3][2] == "0" else "0"]]
         if c[1] in _FLIP:
-            return ["bin", _NORM_OP.get(_FLIP[c[1]], _FLIP[c[1]]), c[2], c[3]]
+            return _norm_cmp(_NORM_OP.get(_FLIP[c[1]], _FLIP[c[1]]), c[2], c[3])
     if k in ("is", "isdist", "in", "between"):
         return [k, not c[1]] + list(c[2:])
     if k == "like":
